@@ -421,6 +421,60 @@ def fault_composites(res, ctx, rng, fams):
             return
 
 
+def aborted_decodes(res, ctx, rng, fams):
+    """The decode of a flag word is cut short at every line it executes inside the library by an exception that does not
+    come from the data (vlib.monitors.AbortAt), the process goes on, and the same word is decoded again: the names are
+    those of its bits - nothing half-built by the aborted attempt is reused.  Words are fresh (never decoded before in
+    this process) so that a first-time path is the one being interrupted."""
+    from vlib import monitors
+    helpers = helper_functions()
+    for key, fn in sorted(helpers.items()):
+        fam = fams[key]
+        bits = sorted(fam.single.values())
+        for rep in range(ctx.pick(3, 30)):
+            value = 0
+            for b in bits:
+                if rng.random() < 0.6:
+                    value |= b
+            k = 0
+            while k < 300:
+                k += 1
+                fired = False
+                try:
+                    with monitors.AbortAt(k) as ab:
+                        fn(value)
+                    fired = ab.fired
+                except monitors.Aborted:
+                    fired = True
+                except Exception:
+                    fired = True
+                res.count('aborted_flag_decodes')
+                try:
+                    # (on a watchdog: an aborted attempt that leaves a lock held makes the next decode wait for ever)
+                    import threading
+                    box = []
+                    worker = threading.Thread(target=lambda: box.append(fn(value)), daemon=True)
+                    worker.start()
+                    worker.join(timeout=20)
+                    if worker.is_alive():
+                        res.violation(f'c11-{key}-hangs-after-an-aborted-decode', f'{fam.label}: after a decode of {hex(value)} '
+                                      f'was aborted at line {k} inside the library the next decode of that word does not '
+                                      f'return (20 s)', {'family': key, 'value': value, 'abort_at': k})
+                        return
+                    shown = [getattr(m, 'name', str(m)) for m in (box[0] if box else fn(value))]
+                except Exception as x:
+                    res.violation(f'c11-helper-raises-{key}-{core.exc_name(x)}', f'{fam.label}: after an aborted decode of '
+                                  f'{hex(value)} (line {k}) the helper raises {x!r}', {'family': key, 'value': value})
+                    return
+                bad = fam.check(value, shown)
+                if bad:
+                    res.violation(f'c11-{key}-{bad[0]}', f'after a decode of {hex(value)} was aborted at line {k} inside the '
+                                  f'library: {bad[1]}', {'family': key, 'value': value, 'abort_at': k})
+                    return
+                if not fired:
+                    break
+
+
 def cold_start(res, ctx, rng, fams):
     """Every flag family decoded for the FIRST time in a process by several OS threads at once (vlib/coldstart.py): the
     names shown are those a warm single-threaded run shows (and those were judged bit by bit above)."""
@@ -534,6 +588,8 @@ def run(ctx):
     fault_composites(res, ctx, rng, fams)
     if ctx.shard == 0 or ctx.thorough:
         cold_start(res, ctx, rng, fams)
+    if ctx.shard in (1, 2) or ctx.thorough:
+        aborted_decodes(res, ctx, rng, fams)
     drive_ioctl(res, ctx, rng)
     if ctx.shard == 0:
         from pykdebugparser.trace_handlers import bsd
